@@ -220,6 +220,15 @@ def run(tier, only=None):
                     extra.append((k, concretise(k, h, j)))
     have = {json.dumps(j) for j in jobs}
     jobs += [j for j in extra if json.dumps(j) not in have]
+    # quick tier: the ground-effect model (two surfaces) is replayed on the pair-pattern histories only
+    if tier == "quick" and "aerog" not in kinds and not only:
+        _L = lifecycle.Live("aerog")
+        FIELDS["aerog"] = (_L.fields(), _L.zero_fields())
+        pj = [("aerog", concretise("aerog", h, i)) for i, h in enumerate(PAIRS)]
+        need2 = sorted({(k, e[1]) for k, h in pj for e in h if e[0] == "set"} | {("aerog", "p0")})
+        for kind, p, val in check_exc(pmap(_fresh_job, need2)):
+            lifecycle._FRESH[(kind, p, "auto")] = val
+        jobs += pj
     need = sorted({(k, e[1]) for k, h in jobs for e in h if e[0] == "set" and ("~" in e[1] or "!" in e[1])})
     for kind, p, val in check_exc(pmap(_fresh_job, need)):
         lifecycle._FRESH[(kind, p, "auto")] = val
